@@ -245,8 +245,13 @@ def run_C10(ctx, R):
         r.notes.extend(tmp.notes)
         r.floor('BND5', 'obligations on the entry function', len(r.obs), 4)
         r.floor('BND5', 'publications of a failure position', len([o for o in r.obs if o.rule == 'BND5']), 1)
-    _per_config(ctx, R, only_entry)
-    _per_config(ctx, R, parse.c10_structure)
+    # code of the entry point that was moved into private single-exit helpers (clear_error_position(), ...) is analysed in place
+    from .specialize import with_inlined
+
+    def entry_view(rule):
+        return lambda units, r: rule(with_inlined(units, 'cJSON.c', 'cJSON_ParseWithLengthOpts'), r)
+    _per_config(ctx, R, entry_view(only_entry))
+    _per_config(ctx, R, entry_view(parse.c10_structure))
     _per_config(ctx, R, parse.tab2_parse)
 
 
